@@ -230,6 +230,13 @@ mod loader;
 
 pub use loader::path_loader;
 
+/// Re-exports for the verification harness.  Not part of the public API.
+#[cfg(feature = "verif_hooks")]
+#[doc(hidden)]
+pub mod __verif {
+    pub use crate::loader::safe_join;
+}
+
 #[cfg(feature = "debug")]
 mod debug;
 
